@@ -233,10 +233,29 @@ def gen_cases(rng, tier):
             d["in"]["rep"] = {"opts": {"call": "kw", "twice": True},
                               key: {"extra": list(EXTRA_COLS), "coord": "float", **({"cols": cols} if cols else {})}}
             reps.append(d)
-    return cases + reps
+    return cases + reps + _merge_x_cases(rng, tier, cases)
+
+
+def _merge_x_cases(rng, tier, cases):
+    """round 5b: merge(bp, stranded, combine) on tables with extra columns, every column judged by the Lean model / spec"""
+    from .. import c06_mergex as X
+    out = []
+    for c in cases:
+        if c["op"] != "merge" or c["in"].get("rep"):
+            continue
+        if rng.random() < (0.9 if c.get("tag", "").startswith("random") else 0.25):
+            out.append(X.make_case(rng, c["in"]["t"], c["in"]["bp"], "mergex-" + c.get("tag", "")))
+    rich = [["chr1", 0, 10, "a"], ["chr1", 5, 15, "b"], ["chr1", 12, 18, "b"], ["chr1", 20, 30, "c"], ["chr2", 1, 4, "d"],
+            ["chr2", 2, 6, "e"], ["chr10", 3, 9, "f"], ["chr10", 3, 9, "g"]]
+    for _ in range(40 if tier == "quick" else 200):
+        out.append(X.make_case(rng, rich, rng.choice([0, 0, 1, 2]), "mergex-rich"))
+    return out
 
 
 def run_impl(case):
+    if case["op"] == "merge_x":
+        from .. import c06_mergex as X
+        return X.run(case)
     T.SUB = case["in"].get("sub")  # tables built as filtered subsets of larger ones (index labels != positions)
     try:
         if case["in"].get("rep"):
